@@ -33,7 +33,10 @@ def run(tier, res, replay=None):
     lab = scenarios.core_lattice(rng, tier)
     for k in ('rod2-adiabatic', 'rod3-flowgap', 'rod3-dd-flowbyp',
               'rod2-dd-stagnant', 'multi-simple', 'multi-6node',
-              'lowfi-simple', 'lowfi-6node', 'rod2-3duct'):
+              'lowfi-simple', 'lowfi-6node', 'rod2-3duct',
+              'rod2-convapprox', 'opt-3duct-convapprox',
+              'opt-dd-regions-adiabatic-gravity', 'opt-uctd-grid-regions',
+              'opt-outlet-temp-bc', 'multi-convfactor'):
         lab.append((k, sl[k]))
     results = marchcheck.run_cases(lab, res, C02_CLAUSES)
     opprobe.run_probes(res, tier, rng, focus='C02',
